@@ -256,3 +256,123 @@ def read_scan_program(d, kind):
         p.call("i", "hx_find_all", V("f"), 0, 0, 1, Out(16 * 100), 100, 1000)
         p.call("i", "Hclose", V("f"))
     return p
+
+
+def w_combo(d, fname="combo.hdf"):
+    """one file holding objects of every interface and every special-element kind (C14/C13 input)"""
+    p = Prog()
+    f = os.path.join(d, fname)
+    p.call("i", "SDstart", f, 7, bind="sd")
+    p.call("i", "SDcreate", V("sd"), "plain", 24, 2, i32s(3, 4), bind="s")
+    p.call("i", "SDwritedata", V("s"), i32s(0, 0), None, i32s(3, 4), _vals("int32", 1, 12))
+    p.call("i", "SDsetattr", V("s"), "units", 4, 3, b"m/s")
+    p.call("i", "SDendaccess", V("s"))
+    p.call("i", "SDcreate", V("sd"), "chunked", 22, 2, i32s(5, 5), bind="s")
+    p.call("i", "hx_SDsetchunk", V("s"), chunk_def([2, 3], comp=(4, 6)), 3)
+    p.call("i", "SDwritedata", V("s"), i32s(0, 0), None, i32s(5, 5), _vals("int16", 2, 25))
+    p.call("i", "SDendaccess", V("s"))
+    p.call("i", "SDcreate", V("sd"), "unl", 5, 1, i32s(0), bind="s")
+    p.call("i", "SDwritedata", V("s"), i32s(0), None, i32s(6), _vals("float32", 3, 6))
+    p.call("i", "SDendaccess", V("s"))
+    p.call("i", "SDsetattr", V("sd"), "title", 4, 5, b"combo")
+    p.call("i", "SDend", V("sd"))
+    p.call("i", "Hopen", f, 3, 0, bind="f")
+    p.call("i", "Hputelement", V("f"), 1000, 1, bytes(range(40)), 40)
+    p.call("i", "HLcreate", V("f"), 1002, 1, 8, 2, bind="l")
+    p.call("i", "Hwrite", V("l"), 50, bytes(range(50)))
+    p.call("i", "Hendaccess", V("l"))
+    p.call("i", "HCcreate", V("f"), 1003, 1, 0, bytes(16), 1, bytes(20), bind="c")
+    p.call("i", "Hwrite", V("c"), 60, b"ab" * 30)
+    p.call("i", "Hendaccess", V("c"))
+    p.call("i", "HXcreate", V("f"), 1004, 1, os.path.join(d, "combo.ext"), 2, 0, bind="x")
+    p.call("i", "Hwrite", V("x"), 16, bytes(range(16)))
+    p.call("i", "Hendaccess", V("x"))
+    p.call("i", "Vinitialize", V("f"))
+    p.call("i", "VSattach", V("f"), -1, "w", bind="vs")
+    p.call("i", "VSfdefine", V("vs"), "a", 24, 1)
+    p.call("i", "VSfdefine", V("vs"), "b", 5, 2)
+    p.call("i", "VSsetfields", V("vs"), "a,b")
+    p.call("i", "VSsetname", V("vs"), "table")
+    p.call("i", "VSwrite", V("vs"), bytes(range(120)), 10, 0)
+    p.call("i", "VSQueryref", V("vs"), bind="vr")
+    p.call("i", "VSsetattr", V("vs"), -1, "note", 4, 4, b"abcd")
+    p.call("i", "VSdetach", V("vs"))
+    p.call("i", "Vattach", V("f"), -1, "w", bind="g")
+    p.call("i", "Vsetname", V("g"), "group")
+    p.call("i", "Vaddtagref", V("g"), 1962, V("vr"))
+    p.call("i", "Vaddtagref", V("g"), 1000, 1)
+    p.call("i", "Vsetattr", V("g"), "ga", 22, 2, _vals("int16", 1, 2))
+    p.call("i", "Vdetach", V("g"))
+    p.call("i", "Vfinish", V("f"))
+    p.call("i", "GRstart", V("f"), bind="gr")
+    p.call("i", "GRcreate", V("gr"), "img", 3, 21, 0, i32s(5, 4), bind="ri")
+    p.call("i", "GRwriteimage", V("ri"), i32s(0, 0), None, i32s(5, 4), _vals("uint8", 1, 60))
+    p.call("i", "GRgetlutid", V("ri"), 0, bind="lut")
+    p.call("i", "GRwritelut", V("lut"), 3, 21, 0, 256, _vals("uint8", 2, 768))
+    p.call("i", "GRsetattr", V("ri"), "note", 4, 2, b"ok")
+    p.call("i", "GRendaccess", V("ri"))
+    p.call("i", "GRend", V("gr"))
+    p.call("i", "ANstart", V("f"), bind="an")
+    p.call("i", "ANcreatef", V("an"), 2, bind="n")
+    p.call("i", "ANwriteann", V("n"), b"file label", 10)
+    p.call("i", "ANendaccess", V("n"))
+    p.call("i", "ANcreate", V("an"), 1000, 1, 1, bind="n")
+    p.call("i", "ANwriteann", V("n"), b"a description", 13)
+    p.call("i", "ANendaccess", V("n"))
+    p.call("i", "ANend", V("an"))
+    p.call("i", "Hclose", V("f"))
+    return p, [f, os.path.join(d, "combo.ext")]
+
+
+def combo_reader(d, fname="combo.hdf", acc=1):
+    """reads every object of the combo file through its interface (transcript = logical content)"""
+    p = Prog()
+    f = os.path.join(d, fname)
+    p.call("i", "SDstart", f, acc, bind="sd")
+    p.call("i", "SDfileinfo", V("sd"), Out(4), Out(4))
+    for i, n in ((0, 48), (1, 50), (2, 24)):
+        p.call("i", "SDselect", V("sd"), i, bind="s")
+        p.call("i", "SDgetinfo", V("s"), OutS(100), Out(4), Out(128), Out(4), Out(4))
+        if i == 0:
+            p.call("i", "SDreaddata", V("s"), i32s(0, 0), None, i32s(3, 4), Out(48))
+            p.call("i", "SDreadattr", V("s"), 0, Out(3))
+        elif i == 1:
+            p.call("i", "SDreaddata", V("s"), i32s(0, 0), None, i32s(5, 5), Out(50))
+        else:
+            p.call("i", "SDreaddata", V("s"), i32s(0), None, i32s(6), Out(24))
+        p.call("i", "SDendaccess", V("s"))
+    p.call("i", "SDreadattr", V("sd"), 0, Out(5))
+    p.call("i", "SDend", V("sd"))
+    p.call("i", "Hopen", f, acc, 0, bind="f")
+    for tag, n in ((1000, 40), (1002, 50), (1003, 60), (1004, 16)):
+        p.call("i", "Hgetelement", V("f"), tag, 1, Out(n + 4))
+    p.call("i", "Vinitialize", V("f"))
+    p.call("i", "VSfind", V("f"), "table", bind="vr")
+    p.call("i", "VSattach", V("f"), V("vr"), "r", bind="vs")
+    p.call("i", "VSsetfields", V("vs"), "a,b")
+    p.call("i", "VSread", V("vs"), Out(120), 10, 0)
+    p.call("i", "VSgetattr", V("vs"), -1, 0, Out(4))
+    p.call("i", "VSdetach", V("vs"))
+    p.call("i", "Vfind", V("f"), "group", bind="gref")
+    p.call("i", "Vattach", V("f"), V("gref"), "r", bind="g")
+    p.call("i", "Vgettagrefs", V("g"), Out(40), Out(40), 10)
+    p.call("i", "Vgetattr", V("g"), 0, Out(4))
+    p.call("i", "Vdetach", V("g"))
+    p.call("i", "Vfinish", V("f"))
+    p.call("i", "GRstart", V("f"), bind="gr")
+    p.call("i", "GRselect", V("gr"), 0, bind="ri")
+    p.call("i", "GRreadimage", V("ri"), i32s(0, 0), None, i32s(5, 4), Out(60))
+    p.call("i", "GRgetlutid", V("ri"), 0, bind="lut")
+    p.call("i", "GRreadlut", V("lut"), Out(768))
+    p.call("i", "GRgetattr", V("ri"), 0, Out(2))
+    p.call("i", "GRendaccess", V("ri"))
+    p.call("i", "GRend", V("gr"))
+    p.call("i", "ANstart", V("f"), bind="an")
+    p.call("i", "hx_an_all", V("an"), 2, Out(20 * 8), 8)
+    p.call("i", "hx_an_all", V("an"), 1, Out(20 * 8), 8)
+    p.call("i", "ANselect", V("an"), 0, 1, bind="n")
+    p.call("i", "ANreadann", V("n"), Out(13), 13)
+    p.call("i", "ANendaccess", V("n"))
+    p.call("i", "ANend", V("an"))
+    p.call("i", "Hclose", V("f"))
+    return p
